@@ -15,7 +15,7 @@ Definition valid_date (y m d : Z) : bool :=
 (* days since 1970-01-01 of a civil date *)
 Definition days_from_civil (y0 m d : Z) : Z :=
   let y := if m <=? 2 then y0 - 1 else y0 in
-  let era := (if 0 <=? y then y else y - 399) / 400 in
+  let era := y / 400 in            (* Z.div floors *)
   let yoe := y - era * 400 in
   let mp := if 2 <? m then m - 3 else m + 9 in
   let doy := (153 * mp + 2) / 5 + d - 1 in
